@@ -5,7 +5,7 @@ Theorems: lean/PyGam/Props/C13.lean — for the solutions beta_lam of the penali
 (R = sqrt(eps) ridge + every penalty held fixed, P = the penalty whose lam grows; all from C01 normal_eq_is_minimiser /
 crit_excess): J = beta'P beta never increases and F = RSS + beta'R beta never decreases (exchange argument); the weighted RSS
 itself never decreases up to the change of the fixed penalty terms (exactly when nothing else is penalised; a 2 x 2
-counter-example shows that the restriction is necessary); squeeze J <= F(beta0)/lam, F(beta_lam) <= F(beta0) and
+counter-example shows that the restriction is necessary: known finding C13-rss-decreases-with-other-penalties-fixed); squeeze J <= F(beta0)/lam, F(beta_lam) <= F(beta0) and
 sum w (B(beta0 - beta_lam))^2 <= F(beta0) - F(beta_lam) for every beta0 in the null space of P (straight lines for the
 default penalty, only 0 for a ridge penalty); lam = 0 is WLS with R alone; edof = sum a_j / (1 + lam gamma_j) is
 non-increasing (partial: under a simultaneous diagonalisation).
@@ -84,7 +84,9 @@ def _grid(case, rs):
     if case['jitter']:
         e = np.sort(np.clip(e + rs.uniform(-0.4, 0.4, size=k), -6, 6))
         e[0], e[-1] = -6.0, 6.0
-    return [0.0] + [float(10 ** v) for v in e]
+    # 0, the 12 decades 1e-6 … 1e6, and one point far beyond (1e9): judged like any other point, the accuracy model
+    # of the solve decides what is too ill-conditioned to judge
+    return [0.0] + [float(10 ** v) for v in e] + [1e9]
 
 
 def _problem(case, pygam):
@@ -191,9 +193,11 @@ def _fit_at(prob, case, pygam, lam):
                 P=_dense(gam.terms.build_penalties()), B=_dense(gam.terms.build_columns(prob['X'])),
                 mu=np.asarray(gam.predict_mu(prob['X']), dtype=float), muq=np.asarray(gam.predict_mu(prob['Xq']), dtype=float),
                 Bq=_dense(gam.terms.build_columns(prob['Xq'])), gam=gam,
-                # `_cholesky` silently replaces the penalty by a more heavily ridged one when the factorisation of
-                # S + P fails by rounding (large lam); the fit is then not a fit of the specified model
-                fallback=(getattr(gam, '_constraint_l2', None) != l2_before))
+                # an unconstrained fit must not touch the conditioning ridge: `_cholesky` escalating `_constraint_l2`
+                # means the penalty S + P was replaced by a more heavily ridged one (the fit is then not a fit of the
+                # specified model) — reported as a failing input wherever it happens
+                fallback=(getattr(gam, '_constraint_l2', None) != l2_before),
+                l2=(l2_before, getattr(gam, '_constraint_l2', None)))
 
 
 def _closed_form(B, A, wv, y):
@@ -206,6 +210,43 @@ def _closed_form(B, A, wv, y):
     beta = np.linalg.lstsq(M, rhs, rcond=None)[0]
     sv = np.linalg.svd(M, compute_uv=False)
     return beta, float(sv.max() / max(sv.min(), 1e-300))
+
+
+def _oracle(B, R, Pv, lam, wv, y):
+    """penalised WLS with penalty R + lam Pv by a thin QR of the stacked system M = [sqrt(W)B; E_R; sqrt(lam) E_P]
+    (R + lam Pv, whose small eigenvalues drown in the rounding of the large ones, is never formed; no rank truncation).
+    Returns the coefficients, cond(M), the trace of the hat matrix and K = |sqrt(W) B N^-1|_2 = |Q1 R^-T|_2, the
+    sensitivity of the weighted fitted values to a perturbation of the penalty matrix: |d(sqrt(W) mu)| <= K |dA| |beta|"""
+    import scipy.linalg as sla
+    n, m = B.shape
+    lr, Vr = np.linalg.eigh((R + R.T) / 2)
+    Er = np.sqrt(np.clip(lr, 0, None))[:, None] * Vr.T
+    lp, Vp = np.linalg.eigh((Pv + Pv.T) / 2)
+    lp = np.where(lp > 1e-12 * max(lp.max(), 1e-300), lp, 0.0)
+    Ep = np.sqrt(lam * lp)[:, None] * Vp.T
+    M = np.vstack([np.sqrt(wv)[:, None] * B, Er, Ep])
+    rhs = np.concatenate([np.sqrt(wv) * y, np.zeros(2 * m)])
+    Q, Rr = np.linalg.qr(M)
+    sv = np.linalg.svd(Rr, compute_uv=False)
+    condM = float(sv.max() / max(sv.min(), 1e-300))
+    if not np.isfinite(condM) or sv.min() == 0:
+        raise np.linalg.LinAlgError('stacked system numerically singular')
+    beta = sla.solve_triangular(Rr, Q.T @ rhs)
+    Y = sla.solve_triangular(Rr, Q[:n].T)
+    return dict(beta=beta, condM=condM, edof=float(np.sum(Q[:n] ** 2)), K=float(np.linalg.norm(Y, 2)))
+
+
+def _split_fit(B, R, Pv, lam, wv, y):
+    """penalised WLS with the penalty R + lam Pv entered as two stacked factors [E_R; sqrt(lam) E_P] — accurate at any lam
+    because R + lam Pv (whose small eigenvalues drown in the rounding of the large ones) is never formed"""
+    lr, Vr = np.linalg.eigh((R + R.T) / 2)
+    Er = np.sqrt(np.clip(lr, 0, None))[:, None] * Vr.T
+    lp, Vp = np.linalg.eigh((Pv + Pv.T) / 2)
+    lp = np.where(lp > 1e-12 * max(lp.max(), 1e-300), lp, 0.0)
+    Ep = np.sqrt(lam * lp)[:, None] * Vp.T
+    M = np.vstack([np.sqrt(wv)[:, None] * B, Er, Ep])
+    rhs = np.concatenate([np.sqrt(wv) * y, np.zeros(2 * B.shape[1])])
+    return np.linalg.lstsq(M, rhs, rcond=None)[0]
 
 
 def _edof_qr(B, A, wv):
@@ -276,8 +317,12 @@ def _worker_(case):
     R = Pfix + SQRT_EPS * np.eye(m)
     G = None
     pts = []
+    far_status = 'ok'
     for lam in prob['grid']:
         f = _fit_at(prob, case, pygam, lam)
+        if f['status'] in ('ValueError', 'OptimizationError') and lam == 1e9 and pts:
+            far_status = f['status']          # the far point may legitimately be refused; the 12 decades may not
+            continue
         if f['status'] != 'ok':
             return dict(case=case, status=f['status'], msg=f.get('msg', '')[:200], lam=lam, desc=prob['desc'])
         B = f['B']
@@ -300,17 +345,16 @@ def _worker_(case):
         grad = B.T @ (wv * (y - mu)) - A @ beta
         rhs = B.T @ (wv * y)
         acc = _acc(condM, float(np.linalg.norm(A, 2)), float(np.linalg.norm(beta)), float(np.abs(mu[wv > 0]).max()))
-        pts.append(dict(lam=lam, conv=f['conv'], fallback=f['fallback'], acc=acc, edof=f['edof'], edof_np=_edof_qr(B, A, wv), rss=rss, J=J, Rq=Rq, cond=cond, condM=condM,
+        pts.append(dict(lam=lam, conv=f['conv'], fallback=f['fallback'], l2=f['l2'], acc=acc, edof=f['edof'], edof_np=_edof_qr(B, A, wv), rss=rss, J=J, Rq=Rq, cond=cond, condM=condM,
                         d_cf=float(np.abs(mu - mucf)[pos].max() / sc), d_lin=float(np.abs(f['P'] - (Pfix + lam * Pv)).max() / (1e-300 + np.abs(f['P']).max() + np.abs(Pfix).max())),
                         d_B=float(np.abs(B - B0).max()), d_mu=float(np.abs(B @ beta - mu).max() / sc),
                         be=float(np.linalg.norm(grad) / (np.linalg.norm(N, 2) * np.linalg.norm(beta) + np.linalg.norm(rhs) + 1e-300)),
                         bnorm2=float(beta @ beta), coef=beta, mu=mu, muq=f['muq'], A=A,
                         nscale=float(np.linalg.norm(N, 2) * np.linalg.norm(beta) + np.linalg.norm(rhs))))
-    res = dict(case=case, status='ok', desc=prob['desc'], varied=prob['varied'], n=n, m=m, pts=pts,
+    res = dict(case=case, status='ok', desc=prob['desc'], varied=prob['varied'], n=n, m=m, pts=pts, far_status=far_status,
                other_pen=float(np.abs(Pfix).max()), pv_zero=bool(np.abs(Pv).max() == 0), pv_norm=float(np.linalg.norm(Pv, 2)), ynorm=float(np.sqrt(np.sum(wv * y * y))))
-    # ---- the limit.  lam_big = the largest of 1e10 … 1e3 at which (i) the problem is still well enough conditioned for a
-    # double-precision solve to mean something (100 eps cond(N) <= 1e-4) and (ii) the code does not fall back to a more
-    # heavily ridged penalty (`_cholesky`).  Whether that lam is "in the limit" is decided by mathematics alone: the NumPy
+    # ---- the limit.  lam_big = the largest of 1e10 … 1e3 at which the problem is still well enough conditioned for a
+    # double-precision solve to mean something (accuracy model <= 1e-4).  Whether that lam is "in the limit" is decided by mathematics alone: the NumPy
     # closed form at lam_big must be within 1e-3 of the NumPy null-space fit, otherwise only the squeeze inequalities
     # are judged.
     beta0, gmin, dim0, mu0min = _null_fit(B0, R, Pv, wv, y)
@@ -319,7 +363,6 @@ def _worker_(case):
         mu0 = B0 @ beta0
         F0 = float(np.sum(wv * (y - mu0) ** 2) + beta0 @ R @ beta0)
         lim = None
-        nfb = 0
         for lam_big in (1e10, 1e9, 1e8, 1e7, 1e6, 1e5, 1e4, 1e3):
             Al = R + lam_big * Pv
             bcf, condM = _closed_form(B0, Al, wv, y)
@@ -330,13 +373,10 @@ def _worker_(case):
             if f['status'] != 'ok':
                 lim = dict(status=f['status'])
                 break
-            if f['fallback']:
-                nfb += 1
-                continue
             beta = f['coef']
             pos = wv > 0
             sc = 1 + np.abs(mu0[pos]).max()
-            lim = dict(lam=lam_big, conv=f['conv'], F0=F0, acc=acc, judge_query=bool(n >= 2 * m),
+            lim = dict(lam=lam_big, conv=f['conv'], fallback=f['fallback'], l2=f['l2'], F0=F0, acc=acc, judge_query=bool(n >= 2 * m),
                        Fl=float(np.sum(wv * (y - f['mu']) ** 2) + beta @ R @ beta), Jl=float(beta @ Pv @ beta),
                        dist2=float(np.sum(wv * (f['mu'] - mu0) ** 2)),
                        d_theory=float(np.abs(B0 @ bcf - mu0)[pos].max() / sc),
@@ -355,13 +395,17 @@ def _worker_(case):
                 lim['d_line_q'] = float(np.abs(f['muq'] - lq).max() / (1 + np.abs(lq).max()))
             break
         res['limit'] = lim
-        res['limit_fallbacks'] = nfb
-        # probe far beyond the grid (lam = 1e9): does the code still fit the specified model there?
-        f = _fit_at(prob, case, pygam, 1e9)
-        if f['status'] == 'ok':
-            bcf, _ = _closed_form(B0, R + 1e9 * Pv, wv, y)
-            res['probe'] = dict(fallback=bool(f['fallback']), d_cf=float(np.abs(f['mu'] - B0 @ bcf)[wv > 0].max() / (1 + np.abs(f['mu'][wv > 0]).max())),
-                                edof=f['edof'], edof_last=pts[-1]['edof'])
+        if case['default_spline'] and n >= 2 * m:
+            # the documented default, enough data: far beyond the grid (lam = 1e11) the fit must still be the straight line
+            f = _fit_at(prob, case, pygam, 1e11)
+            if f['status'] == 'ok' and f['conv']:
+                x = prob['X'][:, 0]
+                keep = wv > 0
+                pc = np.polyfit(x[keep], y[keep], 1, w=np.sqrt(wv[keep]))
+                line = np.polyval(pc, x)
+                sc = 1 + np.abs(line[keep]).max()
+                res['far_line'] = dict(lam=1e11, fallback=f['fallback'], l2=f['l2'], d_line=float(np.abs(f['mu'] - line)[keep].max() / sc),
+                                       d_theory=float(np.abs(B0 @ _split_fit(B0, R, Pv, 1e11, wv, y) - line)[keep].max() / sc))
     # ---- driver operations: two points of the path
     if n * m <= 4000 and m <= 40:
         ops = []
@@ -369,7 +413,7 @@ def _worker_(case):
         for pi in (0, len(pts) - 1, len(pts) // 2):
             p = pts[pi]
             ops.append(('quad', pi, 'C13 quad %s | %s' % (toksJ, _qs(p['coef']))))
-        for pi in (0, len(pts) - 1):
+        for pi in sorted({0, len(pts) - 1, max(len(pts) - 2, 0)}):
             p = pts[pi]
             ops.append(('neq', pi, 'C13 neq %d %d | %s | %s | %s | %s | %s' % (n, m, _qs(B0), _qs(p['A']), _qs(wv), _qs(y), _qs(p['coef']))))
         res['ops'] = ops
@@ -403,7 +447,7 @@ def _judge_path(r):
     r['judged_pairs'] = 0
     for a, b in zip(pts[:-1], pts[1:]):
         tau = _tol(a, b)
-        if tau > 1e-3 or a['fallback'] or b['fallback']:
+        if tau > 1e-3:
             continue
         r['judged_pairs'] += 1
         t = 10 * tau                    # x10 safety margin
@@ -412,7 +456,10 @@ def _judge_path(r):
         if b['edof'] > a['edof'] + t * (1 + abs(a['edof'])):
             fails.append('edof increases from %.12g (lam %.3g) to %.12g (lam %.3g)' % (a['edof'], a['lam'], b['edof'], b['lam']))
         if Fb < Fa - t * sF:
-            fails.append('RSS + fixed penalties decreases from %.12g (lam %.3g) to %.12g (lam %.3g)' % (Fa, a['lam'], Fb, b['lam']))
+            if r['other_pen'] == 0:
+                fails.append('weighted RSS decreases from %.12g (lam %.3g) to %.12g (lam %.3g) by more than the sqrt(eps)-ridge term gains (nothing else is penalised)' % (a['rss'], a['lam'], b['rss'], b['lam']))
+            else:
+                fails.append('RSS + fixed penalties decreases from %.12g (lam %.3g) to %.12g (lam %.3g)' % (Fa, a['lam'], Fb, b['lam']))
         # J = beta'P beta with coefficients accurate to tau (relative, in norm): |dJ| <= 2 tau sqrt(J |P|) |beta| + tau² |P| |beta|²
         noise = sum(2 * tau * np.sqrt(max(q['J'], 0.0) * pn * q['bnorm2']) + tau * tau * pn * q['bnorm2'] for q in (a, b))
         if b['J'] - a['J'] > 10 * noise + 1e-300:
@@ -424,12 +471,68 @@ def _judge_path(r):
     return fails, literal
 
 
+KNOWN_RSS = 'C13-rss-decreases-with-other-penalties-fixed'
+KNOWN_REPRO = ("LinearGAM(l(0, lam=L) + l(1, lam=1), fit_intercept=False, tol=1e-10).fit([[1, 1], [1, 0]], [1, 0]): "
+               "L = 0 -> coef (1/3, 1/3), RSS 2/9 = 0.2222; L = 1 -> coef (1/5, 2/5), RSS 1/5 = 0.2000 "
+               "(RSS + fixed penalty 1 * coef[1]^2: 0.3333 -> 0.3600, non-decreasing as the theorem says)")
+
+
+def _known(ctx, stream, descr, case, observed, expected, oracle, limit=3):
+    """the recorded known finding (known_findings.json, selector {'known': KNOWN_RSS}): the sentence 'increasing any
+    smoothing parameter never decreases the weighted RSS' is false of every exact solver when another penalty is held
+    fixed; the first occurrences are reported as failing inputs, the others are counted"""
+    seen = ctx.extra.setdefault('known_reported', {})
+    ctx.count('known finding', KNOWN_RSS)
+    if seen.get(KNOWN_RSS, 0) >= limit:
+        return
+    seen[KNOWN_RSS] = seen.get(KNOWN_RSS, 0) + 1
+    ctx.fail(stream, dict(known=KNOWN_RSS, **descr), dict(case, minimal_reproduction=KNOWN_REPRO), observed=observed, expected=expected, oracle=oracle)
+
+
+def _witness(ctx, stream, st_neq):
+    """the deterministic 2 x 2 witness of the known finding, on the real code and on the model (theorem
+    PyGam.C13.rss_not_monotone_in_general: the same numbers, exact)"""
+    import warnings
+    pygam = common.import_pygam()
+    from pygam import LinearGAM, l
+    X = np.array([[1.0, 1.0], [1.0, 0.0]])
+    y = np.array([1.0, 0.0])
+    exact = {0.0: (np.array([1 / 3, 1 / 3]), Fraction(2, 9)), 1.0: (np.array([1 / 5, 2 / 5]), Fraction(1, 5))}
+    real = {}
+    for lam1 in (0.0, 1.0):
+        with warnings.catch_warnings():
+            warnings.simplefilter('ignore')
+            gam = LinearGAM(l(0, lam=lam1) + l(1, lam=1.0), fit_intercept=False, tol=1e-10).fit(X, y)
+        coef = np.asarray(gam.coef_, dtype=float).ravel()
+        mu = np.asarray(gam.predict(X), dtype=float)
+        real[lam1] = dict(coef=coef, rss=float(np.sum((y - mu) ** 2)), F=float(np.sum((y - mu) ** 2) + coef[1] ** 2 + SQRT_EPS * coef @ coef))
+    ops = ['C13 neq 2 2 | 1 1 1 0 | 0 0 0 1 | 1 1 | 1 0 | 1/3 1/3', 'C13 neq 2 2 | 1 1 1 0 | 1 0 0 1 | 1 1 | 1 0 | 1/5 2/5']
+    outs = ctx.driver.run(ops)
+    sig = dict(witness='2x2')
+    ctx.case(st_neq, dict(witness='2x2'), nontrivial=True)
+    model_ok = True
+    for o, lam1 in zip(outs, (0.0, 1.0)):
+        parts = [] if o == 'bad-op' else [Fraction(t.strip()) for t in o.split('|')]
+        if len(parts) != 4 or parts[0] != exact[lam1][1] or parts[2] != 0:
+            model_ok = False
+            ctx.disagree(st_neq, sig, 'n/a', o, 'the model does not reproduce the witness of rss_not_monotone_in_general (RSS %s, residual 0 expected)' % exact[lam1][1])
+    ctx.case(stream, sig, nontrivial=True, sample=dict(witness=KNOWN_REPRO))
+    mism = max(float(np.abs(real[k]['coef'] - exact[k][0]).max()) for k in real)
+    if mism > 1e-6:
+        ctx.fail(stream, dict(kind='witness-mismatch'), dict(witness=KNOWN_REPRO), observed={str(k): dict(coef=v['coef'].tolist(), rss=v['rss']) for k, v in real.items()},
+                 expected='coefficients (1/3, 1/3) and (1/5, 2/5): the penalised least-squares solutions', oracle='exact solution of the 2 x 2 normal equations')
+    elif real[1.0]['rss'] < real[0.0]['rss'] - 1e-9 and real[1.0]['F'] >= real[0.0]['F'] - 1e-9 and model_ok:
+        _known(ctx, stream, dict(kind='witness'), dict(witness='2x2'),
+               observed='weighted RSS %.10f at lam = 0 -> %.10f at lam = 1 (decreases); RSS + fixed penalties %.10f -> %.10f (does not)' % (real[0.0]['rss'], real[1.0]['rss'], real[0.0]['F'], real[1.0]['F']),
+               expected='the sentence as written: increasing any smoothing parameter never decreases the weighted RSS', oracle='real LinearGAM fits; exact model values 2/9 -> 1/5')
+
+
 def run(ctx):
     common.import_pygam()
     st_mono, st_lit, st_cf, st_lim, st_lin = 'path.monotone', 'path.rss-literal', 'path.closed-form', 'limit.null-space', 'penalty.linear-in-lam'
     st_quad, st_neq = 'model.quad', 'model.neq'
     ctx.stream(st_mono, 'real fits along increasing lam (0, 1e-6…1e6; each penalty separately and jointly): edof non-increasing, RSS + fixed penalties non-decreasing, penalty value non-increasing (tolerance from the accuracy model of the solve; pairs above 1e-3 not judged)')
-    ctx.stream(st_lit, 'the sentence as stated: weighted RSS non-decreasing — judged exactly where the theorem gives it (nothing else penalised but the sqrt(eps) ridge: slack = gain of the ridge term); with other penalties fixed it is false in general (counted, see rss_not_monotone_in_general)')
+    ctx.stream(st_lit, 'the sentence as written: weighted RSS non-decreasing.  Nothing else penalised (all lams jointly / single penalty): enforced up to the gain of the sqrt(eps)-ridge term (theorem rss_monotone_up_to_fixed_penalties); another penalty fixed at a non-zero value: the sentence is false of every exact solver (theorem rss_not_monotone_in_general) — known finding %s, 2 x 2 witness executed on the real code and on the model in every run' % KNOWN_RSS)
     ctx.stream(st_cf, 'fitted values at every lam (incl. lam = 0) == NumPy lstsq on the augmented system [sqrt(W)B; E]; edof == trace of the hat matrix (thin QR)')
     ctx.stream(st_lim, 'at the largest well-conditioned lam (1e3…1e10): squeeze inequalities against the NumPy null-space WLS fit; where that lam is in the limit regime fitted values == null-space fit (np.polyfit straight line for the default spline term)')
     ctx.stream(st_lin, 'build_penalties() is fixed part + lam x varied part along the path; model matrix independent of lam')
@@ -438,6 +541,7 @@ def run(ctx):
     ctx.extra['rule'] = ('paths = random term program (no constraints, no periodic penalty; every 5th the documented default s(0) + intercept) x LinearGAM / GAM(normal, identity) x n (m+1, 12, 60, 200) x weights '
                          '(none, positive, integer, with zeros) x varied part (one penalty slot with the others fixed at their values | all lams jointly) x grid (0 and 7..25 points over 1e-6…1e6, jittered); '
                          'distinct = distinct path dicts; non-trivial = all fits converged and the varied penalty is not the zero matrix')
+    _witness(ctx, st_lit, st_neq)
     paths = gen_paths(ctx.subrng('paths'), ctx.tier)
     with mp.get_context('fork').Pool(min(16, len(paths))) as pool:
         results = pool.map(_worker, paths, chunksize=1)
@@ -464,6 +568,10 @@ def run(ctx):
                          expected='a fit or a ValueError', oracle='fit must not raise an unrelated exception')
             continue
         pts = r['pts']
+        ctx.count('far point lam = 1e9', r['far_status'] if r['far_status'] != 'ok' else ('fitted' if pts[-1]['lam'] == 1e9 else 'absent'))
+        if pts[-1]['lam'] == 1e9 and not pts[-1]['conv'] and all(p['conv'] for p in pts[:-1]):
+            pts = r['pts'] = pts[:-1]
+            ctx.count('far point lam = 1e9', 'not converged (dropped)')
         if not all(p['conv'] for p in pts):
             ctx.count('path status', 'a fit did not converge')
             continue
@@ -480,11 +588,16 @@ def run(ctx):
             ctx.count('log10 max condition of [sqrt(W)B; E] on the path', _lb(max(p['condM'] for p in pts)))
         if literal:
             worst = max(literal, key=lambda d: d['rel'])
-            if r['other_pen'] > 0:
-                # not a defect of pyGAM: the sentence is false in general when another penalty is held fixed
-                ctx.count('suspected-defect', 'property text: RSS alone decreases along a single-penalty path while other penalties are fixed (theorem gives RSS + fixed penalties only)')
+            if r['other_pen'] > 0 and case['kind'] == 'single' and not fails:
+                # exactly the pattern of the known finding: RSS alone decreases along a single-penalty path while another
+                # penalty is held fixed at a non-zero value, and RSS + fixed penalties does not decrease
                 ctx.count('literal RSS decrease with other penalties fixed: log10 relative size', _lb(worst['rel']))
-            else:
+                _known(ctx, st_lit, dict(kind='random-path', cls=case['cls']), dict(path=case, n=r['n'], m=r['m'], varied=r['varied'], lam=list(worst['lam'])),
+                       observed='weighted RSS %.12g at lam = %.3g -> %.12g at lam = %.3g (relative decrease %.3g) with other penalties fixed at non-zero values; RSS + fixed penalties is non-decreasing' % (worst['rss'][0], worst['lam'][0], worst['rss'][1], worst['lam'][1], worst['rel']),
+                       expected='the sentence as written: increasing any smoothing parameter never decreases the weighted RSS', oracle='sequence of real fits; theorem fidelity_monotone for RSS + fixed penalties')
+            elif r['other_pen'] == 0:
+                # nothing else is penalised but the sqrt(eps) ridge: the decrease is within the gain of the ridge term
+                # (a larger one makes RSS + fixed penalties decrease and is an ordinary failing input, see `fails`)
                 ctx.count('literal RSS decrease within the sqrt(eps)-ridge slack', 'n')
         if fails:
             r2 = _worker(case)
@@ -498,11 +611,12 @@ def run(ctx):
         # ---- closed form and linearity of the penalty
         ctx.case(st_cf, sig, nontrivial=nontriv)
         ctx.case(st_lin, sig, nontrivial=nontriv)
-        nfb = sum(1 for p in pts if p['fallback'])
-        if nfb:
-            ctx.count('suspected-defect', 'GAM._cholesky: factorisation of S + P fails by rounding at large lam and a ridge of ~1e-2 is silently added (fit no longer the specified model; _constraint_l2 mutated) — path points excluded', nfb)
-            ctx.count('cholesky fallback on the 1e-6…1e6 grid: smallest lam', _lb(min(p['lam'] for p in pts if p['fallback'])))
-        jp = [p for p in pts if p['acc'] <= 1e-3 and not p['fallback']]
+        fb = [p for p in pts if p['fallback']] + [q for q in (r.get('limit'), r.get('far_line')) if (q or {}).get('fallback')]
+        if fb:
+            ctx.fail(st_cf, dict(kind='cholesky-fallback', cls=case['cls']), dict(path=case, lam=[p['lam'] for p in fb][:5], n=r['n'], m=r['m'], varied=r['varied']),
+                     observed='the unconstrained fit at lam = %.3g changed the conditioning ridge _constraint_l2 from %r to %r: the factorisation of S + P was replaced by that of a more heavily ridged matrix (%d fit(s) of this path)' % (fb[0]['lam'], fb[0]['l2'][0], fb[0]['l2'][1], len(fb)),
+                     expected='the fit of the specified model (penalty S + P) at every lam', oracle='_constraint_l2 before / after an unconstrained fit')
+        jp = [p for p in pts if p['acc'] <= 1e-3]
         ctx.count('path points judged (accuracy model <= 1e-3)', 'judged', len(jp))
         ctx.count('path points judged (accuracy model <= 1e-3)', 'too ill-conditioned', len(pts) - len(jp))
         worst_cf = max(jp, key=lambda p: p['d_cf'] / max(1e-7, p['acc'])) if jp else None
@@ -527,18 +641,8 @@ def run(ctx):
         if dlin > 1e-12 or dB > 0:
             ctx.fail(st_lin, dict(kind='penalty-linear-in-lam'), dict(path=case, varied=r['varied']), observed=dict(max_rel_dev_penalty=dlin, max_dev_model_matrix=dB),
                      expected='build_penalties() = fixed + lam * varied; build_columns independent of lam', oracle='public build_penalties / build_columns at each lam')
-        pb = r.get('probe')
-        if pb:
-            ctx.count('probe at lam = 1e9', 'cholesky fallback (ridge added)' if pb['fallback'] else 'no fallback')
-            if pb['fallback']:
-                ctx.count('suspected-defect', 'GAM._cholesky: at lam = 1e9 the factorisation of S + P fails by rounding and a ridge ~1e-2 is silently added (fit is not the specified model, _constraint_l2 mutated)')
-                ctx.count('probe at lam = 1e9 with fallback: log10 relative distance of the fitted values from the closed form', _lb(pb['d_cf']))
-                if pb['edof'] < pb['edof_last'] - 1e-6 * (1 + pb['edof_last']):
-                    ctx.count('probe at lam = 1e9 with fallback', 'edof jumps below its value at lam = 1e6 by more than 1e-6')
         # ---- limit
         lim = r.get('limit')
-        if r.get('limit_fallbacks'):
-            ctx.count('suspected-defect', 'GAM._cholesky fallback at a large lam (1e4…1e10) that is otherwise well conditioned: ridge silently added, that lam skipped', r['limit_fallbacks'])
         if lim and 'F0' in lim and lim['conv']:
             ctx.case(st_lim, sig, nontrivial=nontriv, sample=dict(path=case, lam_big=lim['lam'], d_train=lim['d_train'], d_theory=lim['d_theory']))
             ctx.count('limit: lam_big decade', _lb(lim['lam']))
@@ -569,8 +673,19 @@ def run(ctx):
             if lbad:
                 ctx.fail(st_lim, dict(kind='limit', cls=case['cls'], varied=case['kind']), dict(path=case, lam=lim['lam'], varied=r['varied'], n=r['n'], m=r['m']),
                          observed=lbad, expected='the weighted least-squares fit within the null space of the varied penalty (+ fixed penalties)', oracle='NumPy null-space WLS / np.polyfit; squeeze inequalities')
+        fl = r.get('far_line')
+        if fl:
+            ctx.case(st_lim, dict(path=case, far=1e11), nontrivial=True)
+            tfl = 1e-4 + 10 * fl['d_theory']        # clean tree: <= 1e-6 over 189 problems; a ridge of 1e-2 moves the line by 1e-5 … 2e-3
+            ctx.count('default spline at lam = 1e11 vs np.polyfit line: log10(distance / tolerance)', _lb(fl['d_line'] / tfl))
+            if fl['d_line'] > tfl:
+                ctx.fail(st_lim, dict(kind='far-limit', cls=case['cls']), dict(path=case, lam=fl['lam'], n=r['n'], m=r['m']),
+                         observed='default spline term at lam = 1e11 (n >= 2m) differs from the weighted straight-line fit by %.3g (relative); the penalised WLS solution itself is within %.3g' % (fl['d_line'], fl['d_theory']),
+                         expected='a straight line for a default spline term as lam grows without bound', oracle='np.polyfit; stacked-factor penalised WLS in NumPy')
         # ---- model side
         for kind, pi, o in mouts.get(ri, []):
+            if pi >= len(pts):
+                continue
             p = pts[pi]
             if kind == 'quad':
                 ctx.case(st_quad, dict(path=case, pt=pi), nontrivial=nontriv)
@@ -590,10 +705,10 @@ def run(ctx):
                 t = 10 * p['acc']
                 if abs(rssm - p['rss']) > max(1e-9, t) * sF:
                     ctx.disagree(st_neq, sig, p['rss'], rssm, 'weighted RSS: predict_mu vs model matrix times coef in the model')
-                elif resm > 1e-6 * (p['nscale'] + 1e-300) and p['be'] <= 1e-7 and not p['fallback']:     # normwise backward error, as in C01
+                elif resm > 1e-6 * (p['nscale'] + 1e-300) and p['be'] <= 1e-7:     # normwise backward error, as in C01
                     ctx.disagree(st_neq, sig, dict(be_numpy=p['be']), dict(model_residual=resm, rhs=rhsm), 'model normal-equation residual at the real coefficients')
     ctx.partial.append('edof_antitone_partial / edof_diag_formula_partial: monotonicity of edof is proved from the representation sum a_j/(1+lam gamma_j), which assumes a simultaneous diagonalisation of G + R and P (standard linear algebra, not proved here)')
-    ctx.partial.append('rss_monotone holds with nothing else penalised; with other penalties fixed only RSS + fixed penalties is monotone (rss_not_monotone_in_general is a machine-checked counter-example to the unrestricted sentence)')
+    ctx.partial.append('clause "increasing any smoothing parameter never decreases the weighted RSS": proved and enforced for RSS + fixed penalties (fidelity_monotone) and for the RSS alone when nothing else is penalised (rss_monotone; sqrt(eps)-ridge slack); for the RSS alone with another penalty held fixed at a non-zero value the clause is decided as the KNOWN FINDING %s (false of every exact solver: machine-checked counter-example rss_not_monotone_in_general, reproduced on the real code in every run); every other clause (edof, limits, lam = 0) is enforced' % KNOWN_RSS)
     ctx.partial.append('the limit lam -> infinity is proved in quantitative form (squeeze, limit_distance), not as a topological limit; IEEE rounding is covered by the tolerances only')
     ctx.assumptions.append('existence of a simultaneous diagonalisation of a positive definite and a PSD matrix (C13 edof monotonicity only)')
 
